@@ -68,6 +68,23 @@ def k(x):
         HOOK[0]()
     b = a * 2
     return b
+
+@tooled
+def kt(x):
+    # the same, permanently tooled: its body runs as an instrumented call even when no handler is installed
+    a = x + 1
+    if HOOK[0] is not None:
+        HOOK[0]()
+    b = a * 2
+    return b
+
+@tooled
+def tg(n):
+    for i in range(n):
+        v = i * 10
+        if HOOK[0] is not None:
+            HOOK[0]()
+        yield v
 '''
 
 # slot -> kind, selector, style (global: any order; with: LIFO among with-slots), functions it tools,
@@ -180,6 +197,8 @@ class System:
             ops.append(("callk",))
             for i in self.slots:
                 ops.append(("callk-act", i) if i not in act else ("callk-deact", i))
+                # the same through the permanently tooled twin of k
+                ops.append(("callkt-act", i) if i not in act else ("callkt-deact", i))
             for i in self.slots:
                 for j in self.slots:
                     if i in act and j not in act:
@@ -189,7 +208,7 @@ class System:
             # sees): one more overlay on h is entered, h is called, the overlay is left
             ops.append(("ctxrun",))
         if self.wname == "W5":
-            ops += [("gen", "start")] if gen == "none" else [("gen", "next"), ("gen", "close"), ("gen", "drop")]
+            ops += [("gen", "start"), ("gen", "start-tooled")] if gen == "none" else [("gen", "next"), ("gen", "close"), ("gen", "drop")]
             if gen != "none" and gen < 3:
                 # the next step of the generator's own body activates / deactivates a global probe before it yields
                 for i in self.slots:
@@ -215,6 +234,10 @@ class System:
             return (act, wstack[:-1], calls, gen), "ok"
         if op[0] == "act_bad":
             return model, "refused"
+        if op[0] in ("callkt-act", "callkt-deact"):
+            x = calls + 1
+            act = act + (op[1],) if op[0] == "callkt-act" else tuple(i for i in act if i != op[1])
+            return (act, wstack, x, gen), ("result", (x + 1) * 2, ())
         if op[0] in ("callk", "callk-act", "callk-deact", "callk-swap"):
             x = calls + 1
             exp = {s: expected_events(s, "k", x, False) for s in act}
@@ -243,7 +266,7 @@ class System:
             return (act, wstack, calls, gen + 1), "ok"
         if op[0] == "gen":
             # what the generator's own body delivers, and to whom, is C09's subject: not asserted here
-            gen = {"start": 1, "next": (gen + 1 if gen != "none" and gen < 3 else "none"), "close": "none", "drop": "none"}[op[1]]
+            gen = {"start": 1, "start-tooled": 1, "next": (gen + 1 if gen != "none" and gen < 3 else "none"), "close": "none", "drop": "none"}[op[1]]
             return (act, wstack, calls, gen), "ok"
         if op[0] == "call":
             x = calls + 1
@@ -325,12 +348,13 @@ class System:
                 w.depth[op[1]] = w.depth.get(op[1], 0) + 1
                 p.__enter__()
                 return "ok"
-            if op[0] in ("callk", "callk-act", "callk-deact", "callk-swap"):
+            if op[0] in ("callk", "callk-act", "callk-deact", "callk-swap", "callkt-act", "callkt-deact"):
                 for s in w.streams.values():
                     del s[:]
                 w.calls += 1
                 hook = w.ns["HOOK"]
-                if op[0] == "callk-act":
+                target = w.ns["kt"] if op[0].startswith("callkt") else w.k
+                if op[0] in ("callk-act", "callkt-act"):
                     def inside(slot=op[1]):
                         p = self._make(w, slot)
                         w.probes[slot] = p
@@ -345,10 +369,10 @@ class System:
                         w.depth[new] = 1
                         p.__enter__()
                     hook[0] = swap
-                elif op[0] == "callk-deact":
+                elif op[0] in ("callk-deact", "callkt-deact"):
                     hook[0] = lambda slot=op[1]: w.probes.pop(slot).__exit__(None, None, None)
                 try:
-                    r = w.k(w.calls)
+                    r = target(w.calls)
                 finally:
                     hook[0] = None
                 got = {s: list(e) for s, e in w.streams.items() if e}
@@ -421,8 +445,8 @@ class System:
 
                 for s in w.streams.values():
                     del s[:]
-                if op[1] == "start":
-                    w.gen = w.t(3)
+                if op[1] in ("start", "start-tooled"):
+                    w.gen = (w.t if op[1] == "start" else w.ns["tg"])(3)
                     next(w.gen)
                 elif op[1] == "next":
                     try:
